@@ -54,7 +54,15 @@ class EqRaises:
         return 2
 
 
+class InnerHandle(desper.Handle):
+    """a resource that is itself a handle (a "next level" resource handing out the handle to switch to)"""
+
+    def load(self):
+        return ('inner resource', id(self))
+
+
 KINDS = [
+    ('handle', InnerHandle),
     ('none', lambda: None), ('zero', lambda: 0), ('zero_float', lambda: 0.0), ('empty_str', lambda: ''),
     ('empty_list', lambda: []), ('empty_dict', lambda: {}), ('false', lambda: False),
     ('nan', lambda: float('nan')), ('bool_raises', BoolRaises), ('eq_false', EqFalse), ('eq_raises', EqRaises),
@@ -182,6 +190,8 @@ class Run:
                       expected=self.m_loads[ix], value=self.kind_name[ix])
         if got is not self.m_obj[ix]:
             self.viol('access_returned_a_different_object', handle=self.name(ix), how=how, value=self.kind_name[ix])
+        if isinstance(got, InnerHandle) and got.cached:
+            self.viol('access_loaded_the_handle_that_is_the_resource', handle=self.name(ix), how=how)
         self.accesses_since[ix] += 1
         self.paths_used[ix].add(how)
         if (self.cleared_between[ix] and len(self.paths_used[ix]) >= 2 and self.accesses_since[ix] >= 2
